@@ -7,6 +7,7 @@
 -/
 import Gama.Props.C20.ProjectEquationsReachable
 import Gama.Lemmas.PeWitnessReal
+import Gama.Lemmas.PeWitnessSub
 namespace Gama.Props.C20
 open Gama Gama.Ls Gama.Ls.Net Gama.LS Gama.NetDecision Gama.PE Gama.C06NZ Gama.C06NZ.Ex Matrix
 
@@ -23,6 +24,18 @@ theorem C20_nethyp_given_configuration_pe_witness :
      first := Props.C01.C01_net_solverhyp_of_gap npO (npG_dims [1]) (npG_rows [1]) (npG_m0 [1]) (PcG [1])
        (npG_sigma_inv [1]) (npG_reg [1] (Or.inl rfl)) Props.C01.C01_gap_thresholds_default (npG_rankGap [1]) .gso (by decide)
      second := trivial }⟩
+
+/-- **the configurations the removal loops can reach from `netWobs`** (round 13): `dcfg fixed constrained free` IS the
+    configuration of `netWobs` (`withStatuses` gives `netWobs` back), and its sub-configurations are exactly the 2³ choices
+    "height kept / unused" — the finite set on which `C20_adjusted_sound_of_project_equations_subconfigurations` asks `NetHyp` -/
+theorem C20_subconfigurations_of_netWobs :
+    withStatuses netWobs (dcfg .fixed .constrained .free) = netWobs ∧
+    ∀ n, SubOf (dcfg .fixed .constrained .free) n →
+      ∃ zA zB zC, n = dcfg zA zB zC ∧ (zA = .fixed ∨ zA = .unused) ∧ (zB = .constrained ∨ zB = .unused) ∧
+        (zC = .free ∨ zC = .unused) ∧ withStatuses netWobs n = netWs (ofC zA) (ofC zB) (ofC zC) :=
+  ⟨rfl, fun n h => by
+    obtain ⟨zA, zB, zC, rfl, hA, hB, hC⟩ := subOf_dcfg n h
+    exact ⟨zA, zB, zC, rfl, hA, hB, hC, withStatuses_cfg zA zB zC⟩⟩
 
 end witness
 
